@@ -303,7 +303,7 @@ def r21_unit_tallies(ctx, rule):
     elif not any(isinstance(x, (ast.ListComp, ast.GeneratorExp)) for x in ast.walk(bfn)):
         ctx.unk(rule, BS, 'the way base_structure_creation collects the labels is not of a form this rule knows')
         ok = False
-    if ctx.floor(rule, q, n, 6, 'tally statements') and ctx.floor(rule, q, len(found), 8, 'detector result lists') and ok:
+    if ctx.floor(rule, q, n + len(consumed), 8, 'tally statements and consumed result lists') and ctx.floor(rule, q, len(found), 8, 'detector result lists') and ok:
         ctx.ok(rule, q, '%d tallies by one; %d detector result lists all consumed; base structure = labels' % (n, len(found)))
 
 
